@@ -997,7 +997,9 @@ where
             }))
           }
           Err(TrySendError::Full(wc)) => {
+            verif_yield!("asyncwrite:poll:after-failed-send");
             *self.writer.cc_upload_waker.lock().unwrap() = Some(cx.waker().clone());
+            verif_yield!("asyncwrite:poll:after-waker-store");
             if Instant::now() < self.timeout_instant {
               // Put our command back
               self.writer_command = Some(wc);
